@@ -4,12 +4,14 @@ from harness.wire import Exn, exn_of
 
 PROP = "C20"
 THEOREM_FILE = "Props/C20.v"
+EXTRA_THEOREM_FILES = ["History/C20_refuted.v"]      # F-17: the pre-fix loop hands out 10.0.0.128/26 twice
 RULE = ("random histories (length <= 14) on a SubnetSplitter over bases /(w-10)../(w-2) at the bottom, middle and top of "
         "both address spaces (with and without host bits in the base): extract_subnet(prefix, count) with every prefix "
         "from below the base prefix to the family width and counts {None, 1, 2, 3, 5, 6, 7, max, max+1, 0}, interleaved "
         "with remove_subnet of an available block (by index) or of a block that is not available (KeyError); after every "
-        "step the returned subnets and available_subnets() are compared with the model and the tiling invariant is "
-        "evaluated on the implementation's state by interval arithmetic")
+        "step the returned subnets and available_subnets() are compared with the model and the tiling invariant (plus "
+        "pairwise distinct prefix lengths of the available blocks) is evaluated on the implementation's state by "
+        "interval arithmetic")
 EXACT = ()
 
 
@@ -84,6 +86,13 @@ def orc_history(args, res):
                 # a removed block leaves the available space
                 removed = [x for x in prev if x not in avi]
                 gone.extend(removed)
+        # the model lists the set by descending prefix only: legitimate because no two available blocks ever share
+        # a prefix length (Inv, C20_available_unique) - checked here on the implementation's own state
+        if len(set(b[1] for b in av)) != len(av):
+            return where + ": two available blocks share a prefix length (set iteration order would be observable)"
+        for b in av:
+            if b[0] != fl(w, *b)[0] and b != [v, p]:
+                return where + ": available block %r has host bits" % (b,)
         # tiling: available + handed out + removed = base, no overlap, no gap
         allv = sorted(avi + gone)
         pos = base[0]
@@ -101,7 +110,7 @@ ORACLE = {"c20_history": orc_history}
 
 
 def cases(rng, tier):
-    n = 2500 if tier == "quick" else 60000
+    n = 6000 if tier == "quick" else 150000
     for _ in range(n):
         ver = rng.choice((4, 6))
         w = gens.W[ver]
